@@ -1135,3 +1135,121 @@ func handlerSourceRoute(c *Ctx, rule string, fn *ssa.Function, h ssa.Value) (ssa
 	}
 	return fn.Params[ri], sites
 }
+
+// respCtor: a constructor helper for interpreter.Response - a function of pkg/interpreter that builds a Response
+// literal whose StatusCode is its parameter statusParam (and whose Body derives from parameter bodyParam, -1 if from
+// none). A call of it with a constant status makes a response like a literal does.
+type respCtor struct{ statusParam, bodyParam int }
+
+func responseCtors(c *Ctx) map[*ssa.Function]respCtor {
+	out := map[*ssa.Function]respCtor{}
+	for _, fn := range c.srcFuncs(interpPkg) {
+		eachInstr(fn, func(_ *ssa.BasicBlock, _ int, ins ssa.Instruction) {
+			al, ok := ins.(*ssa.Alloc)
+			if !ok || !typeIs(derefType(al.Type()), interpPath, "Response") {
+				return
+			}
+			sp, bp := -1, -1
+			for _, r := range refs(al) {
+				fa, ok := r.(*ssa.FieldAddr)
+				if !ok {
+					continue
+				}
+				_, fld, _ := fieldOf(fa)
+				for _, rr := range refs(fa) {
+					st, ok := rr.(*ssa.Store)
+					if !ok || st.Addr != ssa.Value(fa) {
+						continue
+					}
+					for i, p := range fn.Params {
+						if fld == "StatusCode" && st.Val == ssa.Value(p) {
+							sp = i
+						}
+						if fld == "Body" && derivesFrom(st.Val, func(v ssa.Value) bool { return v == ssa.Value(p) }) {
+							bp = i
+						}
+					}
+				}
+			}
+			if sp >= 0 {
+				out[fn] = respCtor{sp, bp}
+			}
+		})
+	}
+	return out
+}
+
+// respStatusMadeAt: ins commits a constant status to an interpreter.Response - a store of a constant into
+// Response.StatusCode, or a call of a response constructor with a constant status.
+func respStatusMadeAt(ctors map[*ssa.Function]respCtor, ins ssa.Instruction) (int64, bool) {
+	if st, ok := ins.(*ssa.Store); ok && isStoreToField(st, "Response", "StatusCode") {
+		return constInt(st.Val)
+	}
+	if cl, ok := ins.(*ssa.Call); ok {
+		if sf := staticFn(cl); sf != nil {
+			if rc, ok := ctors[sf]; ok && rc.statusParam < len(cl.Call.Args) {
+				return constInt(cl.Call.Args[rc.statusParam])
+			}
+		}
+	}
+	return 0, false
+}
+
+// eachResponseMade visits every place in fns where a Response with a constant status is made: a literal, or a call of
+// a response constructor. body is the value stored into / passed for the Body (nil if none).
+func eachResponseMade(fns []*ssa.Function, ctors map[*ssa.Function]respCtor, f func(fn *ssa.Function, at ssa.Instruction, status int64, body ssa.Value)) {
+	for _, fn := range fns {
+		eachInstr(fn, func(_ *ssa.BasicBlock, _ int, ins ssa.Instruction) {
+			switch x := ins.(type) {
+			case *ssa.Alloc:
+				if !typeIs(derefType(x.Type()), interpPath, "Response") {
+					return
+				}
+				var status int64 = -1
+				var body ssa.Value
+				for _, r := range refs(x) {
+					fa, ok := r.(*ssa.FieldAddr)
+					if !ok {
+						continue
+					}
+					_, fld, _ := fieldOf(fa)
+					for _, rr := range refs(fa) {
+						st, ok := rr.(*ssa.Store)
+						if !ok || st.Addr != ssa.Value(fa) {
+							continue
+						}
+						if fld == "StatusCode" {
+							if kv, ok := constInt(st.Val); ok {
+								status = kv
+							}
+						}
+						if fld == "Body" {
+							body = st.Val
+						}
+					}
+				}
+				if status >= 0 {
+					f(fn, x, status, body)
+				}
+			case *ssa.Call:
+				sf := staticFn(x)
+				if sf == nil {
+					return
+				}
+				rc, ok := ctors[sf]
+				if !ok || rc.statusParam >= len(x.Call.Args) {
+					return
+				}
+				k, ok := constInt(x.Call.Args[rc.statusParam])
+				if !ok {
+					return
+				}
+				var body ssa.Value
+				if rc.bodyParam >= 0 && rc.bodyParam < len(x.Call.Args) {
+					body = x.Call.Args[rc.bodyParam]
+				}
+				f(fn, x, k, body)
+			}
+		})
+	}
+}
